@@ -71,6 +71,8 @@ def NDArray.resolve (a : NDArray V) (cnt off : Idx) : Except Err (Idx × Idx) :=
     if cnt'.length < r || off.length < r then .error .invalidRank else
     let c := cnt'.take r
     let o := off.take r
+    -- a count with a zero entry selects nothing, wherever the offset points (`H5Sselect_hyperslab` → select none)
+    if c.contains 0 then .ok (o, c) else
     if a.boxOk o c && prod cnt' == prod c then .ok (o, c) else .error .h5Error
 
 /-- hyperslab read: the elements of the box in row-major order -/
